@@ -881,6 +881,8 @@ impl Prop for C39 {
                                     let key = if kind == "adv" { "numbering_restarts_after_trim" } else { "trimmed_reappears_via_stale_update" };
                                     fail(format!("`{line}`: generation {}/{} had been removed (last state {}) and is back", m.region, m.gen, s), key);
                                     hist.gone.remove(&id);
+                                    // a new life of the id: later commits are judged against the state it has now
+                                    hist.max_state.insert(id, m.state);
                                 }
                                 Some(s) if m.state < *s => {
                                     fail(
